@@ -655,7 +655,10 @@ func builtinAppend(i *Interpreter, args []Expr, env *Environment) (interface{}, 
 	if err != nil {
 		return nil, err
 	}
-	return append(arr, item), nil
+	// The capacity is capped at the length so that Go's append always copies: with spare
+	// capacity it writes into the argument's backing array, and two arrays appended from the
+	// same source would share - and overwrite - the element behind its end.
+	return append(arr[:len(arr):len(arr)], item), nil
 }
 
 func builtinSet(i *Interpreter, args []Expr, env *Environment) (interface{}, error) {
